@@ -818,3 +818,49 @@ def r10(R):
                 'beyond that position is copied into the packed file',
                 key='copy loop not bounded by the committed position')
     R.require(n >= 2, 'packer end handling not found')
+
+
+# ----------------------------------------------------------------- C08.R11
+@rule('C08.R11', 'the data file is opened by NAME only under the storage '
+      'lock (a pack renames the file away and the packed file into place '
+      'under that lock): an iterator asked for between the two renames must '
+      'wait, not fail', min_instances=1)
+def r11(R):
+    from ..locks import explore_locksets
+    cls = R.prog.cls(FS)
+    n = 0
+    for name, f in sorted(cls.methods.items()):
+        if name in ('__init__', 'pack', 'cleanup', 'close', 'packer') or \
+                name.startswith('_'):
+            continue
+        opens = [c for c in walk_local(f.node) if isinstance(c, ast.Call)
+                 and any(dotted(a) == ('self', '_file_name')
+                         for a in c.args) and dotted(c.func) and
+                 dotted(c.func)[-1] in ('open', 'FileIterator')]
+        if not opens:
+            continue
+        n += 1
+        g, b, F = R.cfg(f, cls, max_depth=0)
+        R.instance('FileStorage.%s opens the data file by name' % name)
+
+        def check(node, held, name=name, F=F):
+            for op in F.ops(node):
+                if op.kind == 'call' and op.path and \
+                        op.path[-1].split('.')[-1] in (
+                            'open', 'FileIterator') and any(
+                            dotted(a) == ('self', '_file_name')
+                            for a in op.ast.args) and \
+                        ('self', '_lock') not in held:
+                    return ('FileStorage.%s opens the data file by name '
+                            'without the storage lock: between the two '
+                            'renames of a pack there is no file of that '
+                            'name (FileNotFoundError), a reader error '
+                            'caused by the pack' % name)
+            return None
+
+        vs, stats = explore_locksets(g, F, check)
+        R.count(stats)
+        for v in vs[:1]:
+            R.violation(v.node, v.message, g, v.path)
+    R.require(n >= 1, 'no public method opens the data file by name any '
+              'more')
